@@ -92,6 +92,36 @@ Deciding monitor M (boundary oracle, public API only):
            counted (recorded:log:*), never judged; anything it hands to the warnings module
            in these cases is recorded inside warnings.catch_warnings, never raised.
 
+* M.allforms / M.raw   NON-NORMALISED UNICODE AND ODD CONTINUATION MARKERS (round 9).  (1) Valid Unicode that is not
+           in normal form C or that NFKC / case folding would change - decomposed sequences (e + U+0301, A + U+030A,
+           marks in non-canonical order), singletons (U+2126 OHM, U+212B ANGSTROM, U+212A KELVIN, U+0340/1, U+037E ...),
+           CJK compatibility ideographs (U+F900.., U+2F800..), Hangul conjoining / compatibility / half-width jamo,
+           ligatures, full-width letters, superscripts, invisible format characters, characters whose UTF-8 form holds
+           the bytes 0x85 / 0xA0, astral characters - in every kind of text value (copyright texts, license synopses and
+           texts, comments, disclaimers, Upstream-Name, list entries, patterns): "Unicode documents" are BUILT through
+           the API like every other document, fed to the parser in one of TEN input forms (the four old ones plus: the
+           dump as ONE str, as ONE utf-8 bytes object, byte lines without line ends, io.BytesIO, a real file opened
+           'rb', a real file opened in text mode with encoding='utf-8') and then (M.allforms) in four MORE of those
+           forms chosen by rotation; every value must come back code point for code point (plain ==, never a
+           normalising comparison) and every re-dump must be the first dump.  The same vocabulary goes through the list
+           getters (kind 'lists', wide=1: all ten forms), the multiline codec and License.to_str / from_str.  (2) RAW
+           multi-line values whose continuation lines start with ONE TAB, several blanks, blank+tab, tab+blank, mixed
+           runs (16 markers), with trailing blanks / tabs, inner tabs, an empty first line, '.' after an odd marker:
+           in Copyright / Comment / Disclaimer / Source of the Unicode documents (through create() and the setters) and
+           in kind 'rawdoc' - documents given as RAW FIELD TEXT, License text included: either the generator's own
+           text ("Name: first line", continuation lines verbatim) parsed strict from one of the ten forms, or the same
+           raw values put into Deb822 data objects over which Header / FilesParagraph / LicenseParagraph are
+           constructed.  Established on the unchanged tree and modelled: the marker is PART of what the raw fields
+           return (p['Copyright'] == p.copyright == the text after 'Copyright: ' with every continuation line verbatim,
+           marker and trailing blanks included); a License whose continuation lines all start with the one structural
+           blank decodes to (first line, lines minus that blank, lone '.' = empty line) - the module's own
+           model_license; one whose continuation line starts with a TAB makes .license raise on the unchanged tree:
+           what the getter does then is NOT demanded, only that it is the same before and after dump + re-parse.  Then:
+           dump, strict re-parse from another form: every raw value (through the mapping interface) and every typed
+           value (properties; Files = whitespace-separated, Upstream-Contact = one entry per line) equals what was
+           written; the re-dump is the dump; one more round in a third form.  Fixed grid: every atom x a third of the
+           forms and every odd marker x every form (raw:enumerated, exact floor), plus seeded documents.
+
 Witnesses of state kept between objects are confirmed in a fresh interpreter (what
 --replay does): the shrunk case, the case, the case built twice, the case after the
 preceding documents of the process - first one that reproduces is the witness.
@@ -168,7 +198,20 @@ RULE = ('Seeded specs of copyright documents: header (optional Upstream-Name, Up
         'Upstream-Name / Upstream-Contact / Disclaimer / Comment of the header documents carry URLs with and without '
         'final slash, http / https / other schemes, queries, fragments, inside single-line values, list entries and '
         'multi-line raw values whose continuation lines have 1..8 leading blanks or a tab and 0..3 trailing blanks.  A '
-        'document that gives a Format other than the canonical URL is non-trivial.')
+        'document that gives a Format other than the canonical URL is non-trivial.  NON-NORMALISED UNICODE / ODD '
+        'CONTINUATION MARKERS (uni:*, raw:*, feat:uni-*, feat:marker-*, lists:uni-*, codec:uni-*, lic:uni-*): {ATOMS} atoms '
+        '(decomposed sequences, singletons, CJK compatibility ideographs, Hangul jamo, ligatures / full-width / '
+        'superscripts and other compatibility characters, case-fold-sensitive letters, invisible format characters, '
+        'characters with 0x85 / 0xA0 in their UTF-8 form, astral characters) + {SPACED} words with inner Unicode blanks, alone '
+        'on a line / at the start / end / inside of words; Unicode documents (0..3 Files, 0..2 License paragraphs, header '
+        'fields; raw values with the 16 continuation markers " ", TAB, 2..16 blanks, blank+tab, tab+blank, mixed) built '
+        'through the API, first fed in one of 10 input forms (keepends / noends / StringIO / byte lines / one str / one '
+        'utf-8 bytes object / byte lines without ends / BytesIO / binary file / text file), then in 4 more forms by '
+        'rotation; raw-text documents (kind rawdoc): header + 0..2 Files + 0..2 License paragraphs written field by '
+        'field as raw text (License, Files, Upstream-Contact included; fields without a property too), parsed from the '
+        'written text or assembled over data objects, dumped, re-parsed strict from a second form, re-dumped, and once '
+        'more from a third form; fixed grid: every atom x a third of the forms + every odd marker x every form.  Such a '
+        'document is non-trivial when it shows at least one non-normalised class or one odd marker.')
 ASSUMPTIONS = [
     'domain: text lines never whitespace-only (unless empty) nor a lone "."; last line of a text non-blank; only \\n as '
     'line boundary (no \\r, \\v, \\f, \\x1c-\\x1e, \\x85, U+2028/9); first lines and single-line values without outer blanks',
@@ -231,6 +274,35 @@ ASSUMPTIONS = [
     'not',
     'header fields given through the data object of Header(data) are raw / single-line fields only (Source, Disclaimer, '
     'Comment, Copyright, Upstream-Name), stored as data[name] = value exactly as the property setter would store them',
+    'Unicode: every generated character is a valid scalar value (no surrogates, no noncharacters) outside the excluded '
+    'line-boundary set; an atom never contains a character str.isspace() accepts (checked at import; the few "inner '
+    'blank" words carry U+00A0 / U+2002 / U+2007 / U+2009 / U+202F / U+205F / U+3000 / U+1680 strictly inside and are '
+    'never used in patterns), so the existing "no outer blanks" / "whitespace-separated" rules apply unchanged; values '
+    'are compared with == on str (code point for code point) - no normalisation on either side; which normal forms a '
+    'value violates is computed with the interpreter\'s unicodedata for the COUNTERS only',
+    'input forms: a document may be given as list of str lines with / without ends, StringIO, list of utf-8 byte lines '
+    'with / without ends, ONE str, ONE utf-8 bytes object, BytesIO, a file opened "rb", a file opened in text mode with '
+    'encoding="utf-8" named explicitly (scratch files in /dev/shm or the temp dir, removed at exit); Copyright() is '
+    'always called with its default encoding="utf-8"; texts contain only \\n line ends, so str.splitlines / '
+    'bytes.splitlines / file iteration cut at the same places',
+    'raw multi-line values: first line without outer blanks (may be empty), every continuation line = marker (first '
+    'character blank or TAB, then any run of blanks / tabs) + at least one non-blank + optional trailing blanks / tabs; '
+    'established on the unchanged tree: Deb822 stores and returns such a value verbatim and dump() writes it verbatim, '
+    'so p[name] and the unconverted properties (.copyright .comment .disclaimer .source) must return exactly what was '
+    'written - the marker is part of the value',
+    'raw-text documents are written by the generator\'s own writer in the layout the library itself uses ("Name: v", '
+    '"Name:" when the first line is empty, one empty line between paragraphs); whether the FIRST dump of a parsed '
+    'document equals that text is counted (raw:dump-equals-the-parsed-text), not judged: judged are the values after '
+    'every parse and dump(parse(dump)) == dump; for the data route Files paragraphs precede License paragraphs (the '
+    'documented insertion rule of add_files_paragraph is not modelled here), Format is the canonical URL',
+    'raw License text: decoded reference = model_license (documented: first line synopsis, each further line loses ONE '
+    'leading blank, a lone "." is an empty line) whenever every continuation line starts with a blank; if one starts '
+    'with a TAB the unchanged tree raises MachineReadableFormatError from .license (recorded as '
+    'raw:recorded:license-getter-on-tab-marked-text:*): neither raising nor any particular value is demanded then, only '
+    'the SAME outcome (value or exception type) before and after dump + strict re-parse, and the raw text itself',
+    'typed values of raw list fields: Files = raw.split() (whitespace-separated, continuation lines included), '
+    'Upstream-Contact / Files-Excluded / Files-Included = non-empty stripped lines; a field that was not written reads '
+    'as None / empty sequence',
     'License.from_str(s).to_str() == s is only demanded for s = License(synopsis, text).to_str() of an in-domain '
     'License whose decoded value was already equal to the generator\'s (so only what the stated inverse law implies '
     'for a pure to_str is demanded); never for hand-written encoded strings',
@@ -278,7 +350,7 @@ MUST_REACH = [
     'debian.deb822:RestrictedWrapper.dump',
 ]
 
-DOCS = {'quick': 9200, 'thorough': 560000}
+DOCS = {'quick': 9000, 'thorough': 560000}
 CODEC = {'quick': 200000, 'thorough': 11200000}
 LICENSES = {'quick': 30000, 'thorough': 1400000}
 FACTORY = {'quick': 1600, 'thorough': 80000}
@@ -287,10 +359,10 @@ HEADERDOCS = {'quick': 1600, 'thorough': 84000}
 FORMAT_IN_ORDINARY_DOCS = 0.08       # share of the ordinary / factory documents that also get a non-default Format
 LISTS = {'quick': 20000, 'thorough': 1000000}
 # round-9 extension (non-normalised Unicode, odd continuation markers): totals per tier
-UNIDOCS = {'quick': 720, 'thorough': 42000}
-RAWDOCS = {'quick': 800, 'thorough': 56000}
+UNIDOCS = {'quick': 640, 'thorough': 42000}
+RAWDOCS = {'quick': 720, 'thorough': 56000}
 ULISTS = {'quick': 1600, 'thorough': 84000}
-UCODEC = {'quick': 8000, 'thorough': 420000}
+UCODEC = {'quick': 6000, 'thorough': 420000}
 ULICENSES = {'quick': 2000, 'thorough': 112000}
 LIST_FIELD_CYCLE = ('files', 'files', 'files', 'upstream_contact', 'files_excluded', 'files_included')
 CODEC_BATCH = 250
@@ -313,124 +385,184 @@ LIST_BATCH = 16
 # minimum measured was below 60 (a few way x class cells in the quick tier), none on fmt:unsplittable (0 on the
 # unchanged tree) and none on the recorded:* counters (what the library logs / warns is its business).
 FLOORS = {
-    'quick': {'nontrivial': 57000,
-        'monitors': {'K.codec': 180000, 'M.codec': 65000, 'M.codec-str': 49000, 'M.doc': 6700, 'M.fmt': 1500,
-                     'M.fmt-parsed': 1200, 'M.fmt-parsed-value': 35000, 'M.license': 15000, 'M.license-enc': 15000,
-                     'M.list': 11000, 'M.list-doc': 13000, 'M.list-kept': 11000, 'M.list-reassigned': 11000,
-                     'M.list-reparsed': 11000, 'M.multi': 160, 'M.multi-doc': 440, 'M.multi-value': 16000,
-                     'M.nonstrict': 3100, 'M.nonstrict-value': 57000, 'M.para': 26000, 'M.perm': 4000,
-                     'M.perm-fixpoint': 4000, 'M.perm-para': 20000, 'M.perm-value': 91000, 'M.second-round': 1500,
-                     'M.second-round-value': 23000, 'M.value': 120000, 'M.watch': 360000},
-        'counters': {'codec:enumerated': 16105, 'fact:decoy-files': 300, 'fact:decoy-header': 630,
-                     'fact:decoy-license': 300, 'fact:early-reads': 3400, 'fact:files-paragraphs>=2': 3300,
-                     'fact:late-after-first-dump': 380, 'fact:late-assignment': 950, 'fact:late:comment': 390,
-                     'fact:late:files': 76, 'fact:late:header': 580, 'fact:late:license': 390,
-                     'fact:license-created-before-a-files-paragraph': 1700,
+    'quick': {'nontrivial': 61000,
+        'monitors': {'K.codec': 190000, 'M.allforms': 1200, 'M.allforms-value': 21000, 'M.codec': 68000,
+                     'M.codec-str': 51000, 'M.doc': 6700, 'M.fmt': 1500, 'M.fmt-parsed': 1200,
+                     'M.fmt-parsed-value': 34000, 'M.license': 16000, 'M.license-enc': 16000, 'M.list': 12000,
+                     'M.list-doc': 13000, 'M.list-kept': 12000, 'M.list-reassigned': 12000, 'M.list-reparsed': 12000,
+                     'M.multi': 160, 'M.multi-doc': 440, 'M.multi-value': 16000, 'M.nonstrict': 3200,
+                     'M.nonstrict-value': 58000, 'M.para': 25000, 'M.perm': 3900, 'M.perm-fixpoint': 3900,
+                     'M.perm-para': 19000, 'M.perm-value': 89000, 'M.raw': 690, 'M.raw-value': 50000,
+                     'M.second-round': 1500, 'M.second-round-value': 23000, 'M.value': 120000, 'M.watch': 360000},
+        'counters': {'codec:enumerated': 16105, 'codec:uni-astral': 430,
+                     'codec:uni-casefold-differs-from-lower': 710, 'codec:uni-cjk-compatibility': 420,
+                     'codec:uni-combining-mark': 970, 'codec:uni-hangul-jamo': 430,
+                     'codec:uni-inner-unicode-blank': 490, 'codec:uni-invisible': 550,
+                     'codec:uni-ligature-fullwidth-superscript': 560, 'codec:uni-nfkc-differs': 1500,
+                     'codec:uni-not-nfc': 1500, 'codec:uni-not-nfd': 1400, 'codec:uni-singleton': 680,
+                     'codec:uni-utf8-byte-0x85': 720, 'codec:uni-utf8-byte-0xa0': 630, 'fact:decoy-files': 300,
+                     'fact:decoy-header': 630, 'fact:decoy-license': 300, 'fact:early-reads': 3400,
+                     'fact:files-paragraphs>=2': 3300, 'fact:late-after-first-dump': 380,
+                     'fact:late-assignment': 950, 'fact:late:comment': 390, 'fact:late:files': 76,
+                     'fact:late:header': 580, 'fact:late:license': 390,
+                     'fact:license-created-before-a-files-paragraph': 1600,
                      'fact:license-paragraphs-fully-equal': 410, 'fact:license-paragraphs-with-equal-synopsis': 800,
-                     'fact:license-paragraphs-with-equal-text': 640,
+                     'fact:license-paragraphs-with-equal-text': 630,
                      'fact:license-paragraphs-with-synopsis-equal-ignoring-case': 71,
-                     'fact:license-paragraphs:2': 1100, 'fact:license-paragraphs:3': 1000,
+                     'fact:license-paragraphs:2': 1100, 'fact:license-paragraphs:3': 950,
                      'fact:license-paragraphs:4': 110, 'fact:license-paragraphs:5': 100,
                      'fact:license-paragraphs>=2': 2300, 'fact:own-header-object': 720,
-                     'fact:reused-license-object': 980, 'feat:common-indent': 2000, 'feat:contact-multi': 1700,
-                     'feat:contact-single': 1100, 'feat:empty-line': 5400, 'feat:files-added-after-license': 2600,
-                     'feat:files-list>120': 1800, 'feat:files-list>80': 3100, 'feat:files-multi': 4600,
-                     'feat:files-paragraph': 5200, 'feat:files-single': 2000, 'feat:header-license': 1400,
-                     'feat:indent': 5600, 'feat:license-paragraph': 4200, 'feat:non-ascii': 6000,
-                     'feat:pattern-hyphen': 4500, 'feat:pattern>80': 1600, 'feat:punct-files-at-first-entry': 1700,
-                     'feat:punct-files-at-last-entry': 1600, 'feat:punct-files-at-middle-entry': 2400,
-                     'feat:punct-files-at-only-entry': 450, 'feat:punct-files-fullwidth-separator': 200,
-                     'feat:punct-files-internal-comma': 980, 'feat:punct-files-internal-semicolon': 75,
-                     'feat:punct-files-leading-comma': 110, 'feat:punct-files-leading-other': 2500,
-                     'feat:punct-files-leading-semicolon': 57, 'feat:punct-files-only-punctuation': 2000,
-                     'feat:punct-files-quote': 210, 'feat:punct-files-trailing-backslash': 860,
-                     'feat:punct-files-trailing-colon': 97, 'feat:punct-files-trailing-comma': 230,
-                     'feat:punct-files-trailing-dot': 900, 'feat:punct-files-trailing-other': 1100,
-                     'feat:punct-files-trailing-semicolon': 130, 'feat:punct-lines-at-first-entry': 1900,
-                     'feat:punct-lines-at-last-entry': 1900, 'feat:punct-lines-at-middle-entry': 1300,
-                     'feat:punct-lines-at-only-entry': 1300, 'feat:punct-lines-fullwidth-separator': 130,
-                     'feat:punct-lines-internal-comma': 1400, 'feat:punct-lines-internal-semicolon': 250,
-                     'feat:punct-lines-leading-comma': 150, 'feat:punct-lines-leading-other': 1400,
-                     'feat:punct-lines-leading-semicolon': 50, 'feat:punct-lines-only-punctuation': 550,
-                     'feat:punct-lines-quote': 370, 'feat:punct-lines-trailing-backslash': 230,
-                     'feat:punct-lines-trailing-colon': 160, 'feat:punct-lines-trailing-comma': 340,
-                     'feat:punct-lines-trailing-dot': 360, 'feat:punct-lines-trailing-other': 2500,
-                     'feat:punct-lines-trailing-semicolon': 120, 'feat:reassigned': 4400, 'feat:set-then-clear': 1100,
-                     'feat:tab': 4600, 'feat:trailing-blank': 5600, 'feat:url-comment-fragment': 230,
-                     'feat:url-comment-http': 290, 'feat:url-comment-https': 160,
+                     'fact:reused-license-object': 980, 'feat:common-indent': 1900, 'feat:contact-multi': 1700,
+                     'feat:contact-single': 1200, 'feat:empty-line': 5400, 'feat:files-added-after-license': 2600,
+                     'feat:files-list>120': 1700, 'feat:files-list>80': 3000, 'feat:files-multi': 4600,
+                     'feat:files-paragraph': 5200, 'feat:files-single': 2100, 'feat:header-license': 1400,
+                     'feat:indent': 5700, 'feat:license-paragraph': 4200, 'feat:marker-blank+tab': 140,
+                     'feat:marker-blanks>=2': 140, 'feat:marker-blanks>=4': 190,
+                     'feat:marker-dot-after-odd-marker': 130, 'feat:marker-mixed-blanks-and-tabs': 220,
+                     'feat:marker-on-last-line': 300, 'feat:marker-one-tab': 77, 'feat:marker-tab+blank': 150,
+                     'feat:marker-tabs>=2': 87, 'feat:marker-with-empty-first-line': 190,
+                     'feat:marker-with-inner-tab': 140, 'feat:marker-with-trailing-blank-or-tab': 280,
+                     'feat:non-ascii': 6000, 'feat:pattern-hyphen': 4400, 'feat:pattern>80': 1500,
+                     'feat:punct-files-at-first-entry': 1700, 'feat:punct-files-at-last-entry': 1600,
+                     'feat:punct-files-at-middle-entry': 2300, 'feat:punct-files-at-only-entry': 470,
+                     'feat:punct-files-fullwidth-separator': 200, 'feat:punct-files-internal-comma': 960,
+                     'feat:punct-files-internal-semicolon': 75, 'feat:punct-files-leading-comma': 110,
+                     'feat:punct-files-leading-other': 2500, 'feat:punct-files-leading-semicolon': 57,
+                     'feat:punct-files-only-punctuation': 2000, 'feat:punct-files-quote': 210,
+                     'feat:punct-files-trailing-backslash': 830, 'feat:punct-files-trailing-colon': 97,
+                     'feat:punct-files-trailing-comma': 230, 'feat:punct-files-trailing-dot': 870,
+                     'feat:punct-files-trailing-other': 1100, 'feat:punct-files-trailing-semicolon': 130,
+                     'feat:punct-lines-at-first-entry': 1900, 'feat:punct-lines-at-last-entry': 1900,
+                     'feat:punct-lines-at-middle-entry': 1300, 'feat:punct-lines-at-only-entry': 1300,
+                     'feat:punct-lines-fullwidth-separator': 130, 'feat:punct-lines-internal-comma': 1300,
+                     'feat:punct-lines-internal-semicolon': 250, 'feat:punct-lines-leading-comma': 150,
+                     'feat:punct-lines-leading-other': 1400, 'feat:punct-lines-leading-semicolon': 50,
+                     'feat:punct-lines-only-punctuation': 540, 'feat:punct-lines-quote': 360,
+                     'feat:punct-lines-trailing-backslash': 210, 'feat:punct-lines-trailing-colon': 160,
+                     'feat:punct-lines-trailing-comma': 340, 'feat:punct-lines-trailing-dot': 360,
+                     'feat:punct-lines-trailing-other': 2500, 'feat:punct-lines-trailing-semicolon': 120,
+                     'feat:reassigned': 4400, 'feat:set-then-clear': 1100, 'feat:tab': 4700,
+                     'feat:trailing-blank': 5600, 'feat:uni-astral': 210,
+                     'feat:uni-casefold-differs-from-lower': 270, 'feat:uni-cjk-compatibility': 220,
+                     'feat:uni-combining-mark': 290, 'feat:uni-hangul-jamo': 230,
+                     'feat:uni-inner-unicode-blank': 210, 'feat:uni-invisible': 240,
+                     'feat:uni-ligature-fullwidth-superscript': 260, 'feat:uni-nfkc-differs': 310,
+                     'feat:uni-not-nfc': 310, 'feat:uni-not-nfd': 310, 'feat:uni-singleton': 270,
+                     'feat:uni-utf8-byte-0x85': 280, 'feat:uni-utf8-byte-0xa0': 260,
+                     'feat:url-comment-fragment': 230, 'feat:url-comment-http': 280, 'feat:url-comment-https': 160,
                      'feat:url-comment-inner-lead>=2': 200, 'feat:url-comment-inner-trailing-blank': 170,
                      'feat:url-comment-multi-line': 280, 'feat:url-comment-no-trailing-slash': 270,
                      'feat:url-comment-other-scheme': 140, 'feat:url-comment-query': 370,
                      'feat:url-comment-trailing-slash': 240, 'feat:url-disclaimer-fragment': 230,
-                     'feat:url-disclaimer-http': 280, 'feat:url-disclaimer-https': 170,
+                     'feat:url-disclaimer-http': 270, 'feat:url-disclaimer-https': 170,
                      'feat:url-disclaimer-inner-lead>=2': 180, 'feat:url-disclaimer-inner-trailing-blank': 180,
                      'feat:url-disclaimer-multi-line': 270, 'feat:url-disclaimer-no-trailing-slash': 270,
                      'feat:url-disclaimer-other-scheme': 140, 'feat:url-disclaimer-query': 360,
                      'feat:url-disclaimer-trailing-slash': 240, 'feat:url-source-fragment': 410,
-                     'feat:url-source-http': 350, 'feat:url-source-https': 950, 'feat:url-source-inner-lead>=2': 260,
-                     'feat:url-source-inner-trailing-blank': 260, 'feat:url-source-multi-line': 340,
-                     'feat:url-source-no-trailing-slash': 980, 'feat:url-source-other-scheme': 240,
+                     'feat:url-source-http': 340, 'feat:url-source-https': 910, 'feat:url-source-inner-lead>=2': 250,
+                     'feat:url-source-inner-trailing-blank': 250, 'feat:url-source-multi-line': 340,
+                     'feat:url-source-no-trailing-slash': 940, 'feat:url-source-other-scheme': 240,
                      'feat:url-source-query': 480, 'feat:url-source-trailing-slash': 430,
-                     'feat:url-upstream-contact-fragment': 190, 'feat:url-upstream-contact-http': 360,
-                     'feat:url-upstream-contact-https': 140, 'feat:url-upstream-contact-multi-line': 320,
-                     'feat:url-upstream-contact-no-trailing-slash': 340,
-                     'feat:url-upstream-contact-other-scheme': 110, 'feat:url-upstream-contact-query': 440,
+                     'feat:url-upstream-contact-fragment': 190, 'feat:url-upstream-contact-http': 340,
+                     'feat:url-upstream-contact-https': 140, 'feat:url-upstream-contact-multi-line': 310,
+                     'feat:url-upstream-contact-no-trailing-slash': 330,
+                     'feat:url-upstream-contact-other-scheme': 110, 'feat:url-upstream-contact-query': 430,
                      'feat:url-upstream-contact-trailing-slash': 220, 'feat:url-upstream-name-fragment': 100,
-                     'feat:url-upstream-name-http': 180, 'feat:url-upstream-name-https': 83,
+                     'feat:url-upstream-name-http': 170, 'feat:url-upstream-name-https': 83,
                      'feat:url-upstream-name-no-trailing-slash': 170, 'feat:url-upstream-name-other-scheme': 53,
-                     'feat:url-upstream-name-query': 250, 'feat:url-upstream-name-trailing-slash': 140,
+                     'feat:url-upstream-name-query': 240, 'feat:url-upstream-name-trailing-slash': 140,
                      'fmt:assign-late-after-first-dump:near-known': 46, 'fmt:assign-late:near-known': 37,
-                     'fmt:assign:canonical': 69, 'fmt:assign:dep5-historical': 160, 'fmt:assign:fixable-known': 150,
-                     'fmt:assign:near-known': 250, 'fmt:assign:non-url': 100, 'fmt:assign:unknown-url': 170,
-                     'fmt:assigned-spelling-rewritten-on-reparse': 170, 'fmt:class:canonical': 200,
-                     'fmt:class:dep5-historical': 480, 'fmt:class:fixable-known': 420, 'fmt:class:near-known': 700,
-                     'fmt:class:non-url': 360, 'fmt:class:unknown-url': 480, 'fmt:data:dep5-historical': 53,
+                     'fmt:assign:canonical': 67, 'fmt:assign:dep5-historical': 160, 'fmt:assign:fixable-known': 140,
+                     'fmt:assign:near-known': 240, 'fmt:assign:non-url': 97, 'fmt:assign:unknown-url': 160,
+                     'fmt:assigned-spelling-rewritten-on-reparse': 160, 'fmt:class:canonical': 200,
+                     'fmt:class:dep5-historical': 470, 'fmt:class:fixable-known': 420, 'fmt:class:near-known': 700,
+                     'fmt:class:non-url': 350, 'fmt:class:unknown-url': 470, 'fmt:data:dep5-historical': 53,
                      'fmt:data:fixable-known': 47, 'fmt:data:near-known': 93, 'fmt:data:non-url': 45,
                      'fmt:data:unknown-url': 51, 'fmt:decoy-header:dep5-historical': 37,
                      'fmt:decoy-header:fixable-known': 34, 'fmt:decoy-header:near-known': 58,
                      'fmt:decoy-header:unknown-url': 36, 'fmt:documents': 1500, 'fmt:enumerated': 730,
-                     'fmt:how:assign': 870, 'fmt:how:assign-late': 140, 'fmt:how:assign-late-after-first-dump': 170,
-                     'fmt:how:data': 330, 'fmt:how:decoy-header': 220, 'fmt:how:parsed': 740,
+                     'fmt:how:assign': 850, 'fmt:how:assign-late': 140, 'fmt:how:assign-late-after-first-dump': 170,
+                     'fmt:how:data': 330, 'fmt:how:decoy-header': 220, 'fmt:how:parsed': 730,
                      'fmt:how:parsed-format-specification': 300,
                      'fmt:parsed-format-specification:dep5-historical': 52,
                      'fmt:parsed-format-specification:fixable-known': 46,
-                     'fmt:parsed-format-specification:near-known': 86, 'fmt:parsed-format-specification:non-url': 46,
-                     'fmt:parsed-format-specification:unknown-url': 51, 'fmt:parsed:canonical': 64,
-                     'fmt:parsed:dep5-historical': 140, 'fmt:parsed:fixable-known': 130, 'fmt:parsed:near-known': 220,
-                     'fmt:parsed:non-url': 91, 'fmt:parsed:unknown-url': 160, 'fmt:rewritten-at-construction': 47,
-                     'fmt:rewritten-when-parsed': 190, 'fmt:url:fragment': 300, 'fmt:url:http': 850,
-                     'fmt:url:https': 910, 'fmt:url:no-trailing-slash': 840, 'fmt:url:other-scheme': 160,
-                     'fmt:url:query': 470, 'fmt:url:trailing-slash': 1000, 'input:bytes': 1600,
-                     'input:keepends': 1600, 'input:noends': 1600, 'input:stringio': 1600, 'lic:common-indent': 2000,
-                     'lic:common-indent-mixed': 590, 'lic:common-indent-space': 1000, 'lic:common-indent-tab': 360,
-                     'lic:common-indent-with-empty-line': 660, 'lists:enumerated': 2925, 'lists:files': 6100,
-                     'lists:files:at-first-entry': 3500, 'lists:files:at-last-entry': 3500,
-                     'lists:files:at-middle-entry': 3100, 'lists:files:at-only-entry': 840,
-                     'lists:files:fullwidth-separator': 780, 'lists:files:internal-comma': 1600,
-                     'lists:files:internal-semicolon': 270, 'lists:files:leading-comma': 630,
-                     'lists:files:leading-other': 2200, 'lists:files:leading-semicolon': 200,
-                     'lists:files:lone-comma': 330, 'lists:files:lone-semicolon': 330,
-                     'lists:files:only-punctuation': 2300, 'lists:files:quote': 760,
-                     'lists:files:trailing-backslash': 810, 'lists:files:trailing-colon': 570,
-                     'lists:files:trailing-comma': 1300, 'lists:files:trailing-dot': 990,
-                     'lists:files:trailing-other': 2000, 'lists:files:trailing-semicolon': 700,
-                     'lists:files_excluded': 1700, 'lists:files_included': 1700, 'lists:lines:at-first-entry': 2900,
-                     'lists:lines:at-last-entry': 2900, 'lists:lines:at-middle-entry': 1400,
-                     'lists:lines:at-only-entry': 1500, 'lists:lines:fullwidth-separator': 520,
+                     'fmt:parsed-format-specification:near-known': 85, 'fmt:parsed-format-specification:non-url': 46,
+                     'fmt:parsed-format-specification:unknown-url': 50, 'fmt:parsed:canonical': 64,
+                     'fmt:parsed:dep5-historical': 140, 'fmt:parsed:fixable-known': 130,
+                     'fmt:parsed:near-known': 220, 'fmt:parsed:non-url': 91, 'fmt:parsed:unknown-url': 150,
+                     'fmt:rewritten-at-construction': 47, 'fmt:rewritten-when-parsed': 190, 'fmt:url:fragment': 300,
+                     'fmt:url:http': 840, 'fmt:url:https': 900, 'fmt:url:no-trailing-slash': 830,
+                     'fmt:url:other-scheme': 160, 'fmt:url:query': 470, 'fmt:url:trailing-slash': 1000,
+                     'input:bytes': 1600, 'input:keepends': 1600, 'input:noends': 1500, 'input:stringio': 1600,
+                     'lic:common-indent': 2000, 'lic:common-indent-mixed': 590, 'lic:common-indent-space': 1000,
+                     'lic:common-indent-tab': 360, 'lic:common-indent-with-empty-line': 660, 'lic:uni-astral': 240,
+                     'lic:uni-casefold-differs-from-lower': 420, 'lic:uni-cjk-compatibility': 290,
+                     'lic:uni-combining-mark': 590, 'lic:uni-hangul-jamo': 290, 'lic:uni-inner-unicode-blank': 300,
+                     'lic:uni-invisible': 320, 'lic:uni-ligature-fullwidth-superscript': 460,
+                     'lic:uni-nfkc-differs': 820, 'lic:uni-not-nfc': 820, 'lic:uni-not-nfd': 750,
+                     'lic:uni-singleton': 420, 'lic:uni-utf8-byte-0x85': 420, 'lic:uni-utf8-byte-0xa0': 360,
+                     'lists:enumerated': 2925, 'lists:files': 6600, 'lists:files:at-first-entry': 3600,
+                     'lists:files:at-last-entry': 3600, 'lists:files:at-middle-entry': 3100,
+                     'lists:files:at-only-entry': 880, 'lists:files:fullwidth-separator': 790,
+                     'lists:files:internal-comma': 1600, 'lists:files:internal-semicolon': 270,
+                     'lists:files:leading-comma': 630, 'lists:files:leading-other': 2300,
+                     'lists:files:leading-semicolon': 200, 'lists:files:lone-comma': 330,
+                     'lists:files:lone-semicolon': 330, 'lists:files:only-punctuation': 2400,
+                     'lists:files:quote': 760, 'lists:files:trailing-backslash': 820,
+                     'lists:files:trailing-colon': 570, 'lists:files:trailing-comma': 1300,
+                     'lists:files:trailing-dot': 1000, 'lists:files:trailing-other': 2100,
+                     'lists:files:trailing-semicolon': 700, 'lists:files_excluded': 1800,
+                     'lists:files_included': 1800, 'lists:lines:at-first-entry': 3000,
+                     'lists:lines:at-last-entry': 3000, 'lists:lines:at-middle-entry': 1500,
+                     'lists:lines:at-only-entry': 1600, 'lists:lines:fullwidth-separator': 530,
                      'lists:lines:internal-comma': 2400, 'lists:lines:internal-semicolon': 940,
-                     'lists:lines:leading-comma': 380, 'lists:lines:leading-other': 1500,
+                     'lists:lines:leading-comma': 380, 'lists:lines:leading-other': 1600,
                      'lists:lines:leading-semicolon': 190, 'lists:lines:lone-comma': 67,
-                     'lists:lines:lone-semicolon': 56, 'lists:lines:only-punctuation': 450, 'lists:lines:quote': 790,
-                     'lists:lines:trailing-backslash': 300, 'lists:lines:trailing-colon': 410,
-                     'lists:lines:trailing-comma': 1000, 'lists:lines:trailing-dot': 490,
-                     'lists:lines:trailing-other': 2300, 'lists:lines:trailing-semicolon': 570,
-                     'lists:upstream_contact': 1700, 'multi:doc-with-license-paragraphs>=2': 320, 'multi:docs:2': 58,
+                     'lists:lines:lone-semicolon': 56, 'lists:lines:only-punctuation': 470, 'lists:lines:quote': 790,
+                     'lists:lines:trailing-backslash': 310, 'lists:lines:trailing-colon': 410,
+                     'lists:lines:trailing-comma': 1000, 'lists:lines:trailing-dot': 500,
+                     'lists:lines:trailing-other': 2400, 'lists:lines:trailing-semicolon': 570,
+                     'lists:uni-astral': 84, 'lists:uni-casefold-differs-from-lower': 150,
+                     'lists:uni-cjk-compatibility': 85, 'lists:uni-combining-mark': 210, 'lists:uni-hangul-jamo': 87,
+                     'lists:uni-invisible': 100, 'lists:uni-ligature-fullwidth-superscript': 120,
+                     'lists:uni-nfkc-differs': 400, 'lists:uni-not-nfc': 430, 'lists:uni-not-nfd': 390,
+                     'lists:uni-singleton': 130, 'lists:uni-utf8-byte-0x85': 140, 'lists:uni-utf8-byte-0xa0': 130,
+                     'lists:unicode:files': 410, 'lists:unicode:files_excluded': 120,
+                     'lists:unicode:files_included': 120, 'lists:unicode:upstream_contact': 120,
+                     'lists:upstream_contact': 1800, 'multi:doc-with-license-paragraphs>=2': 320, 'multi:docs:2': 58,
                      'multi:docs:3': 64, 'multi:docs:4': 30, 'multi:equal-license-in-two-documents': 140,
-                     'multi:reused-license-object': 400, 'perm-input:bytes': 990, 'perm-input:keepends': 990,
-                     'perm-input:noends': 990, 'perm-input:stringio': 990, 'perm:all-licenses-before-all-files': 870,
-                     'perm:files-after-license': 2600, 'perm:files-reordered-among-themselves': 2300,
+                     'multi:reused-license-object': 400, 'perm-input:bytes': 950, 'perm-input:keepends': 950,
+                     'perm-input:noends': 950, 'perm-input:stringio': 950, 'perm:all-licenses-before-all-files': 880,
+                     'perm:files-after-license': 2600, 'perm:files-reordered-among-themselves': 2200,
                      'perm:license-before-first-files': 1700, 'perm:license-between-files': 1300,
-                     'perm:licenses-reordered-among-themselves': 1600}},
+                     'perm:licenses-reordered-among-themselves': 1500, 'raw:dump-reparsed-from:binary-file': 61,
+                     'raw:dump-reparsed-from:bytes': 75, 'raw:dump-reparsed-from:bytes-doc': 71,
+                     'raw:dump-reparsed-from:bytes-noends': 63, 'raw:dump-reparsed-from:bytesio': 71,
+                     'raw:dump-reparsed-from:keepends': 58, 'raw:dump-reparsed-from:noends': 58,
+                     'raw:dump-reparsed-from:str-doc': 72, 'raw:dump-reparsed-from:stringio': 59,
+                     'raw:dump-reparsed-from:text-file': 71, 'raw:enumerated': 674, 'raw:enumerated:atom': 524,
+                     'raw:enumerated:marker': 150, 'raw:license-raw-decodable': 580,
+                     'raw:license-raw-tab-or-other-marker': 330, 'raw:marker-blank+tab': 500,
+                     'raw:marker-blanks>=2': 540, 'raw:marker-blanks>=4': 550,
+                     'raw:marker-dot-after-odd-marker': 510, 'raw:marker-in-comment': 540,
+                     'raw:marker-in-copyright': 580, 'raw:marker-in-disclaimer': 330, 'raw:marker-in-files': 160,
+                     'raw:marker-in-license': 640, 'raw:marker-in-source': 200,
+                     'raw:marker-in-upstream-contact': 130, 'raw:marker-in-x-note': 130,
+                     'raw:marker-in-x-origin': 170, 'raw:marker-mixed-blanks-and-tabs': 600,
+                     'raw:marker-on-last-line': 690, 'raw:marker-one-tab': 280, 'raw:marker-tab+blank': 440,
+                     'raw:marker-tabs>=2': 280, 'raw:marker-with-empty-first-line': 540,
+                     'raw:marker-with-inner-tab': 310, 'raw:marker-with-trailing-blank-or-tab': 680,
+                     'raw:parsed-from:bytes': 50, 'raw:parsed-from:bytes-doc': 52, 'raw:parsed-from:bytesio': 51,
+                     'raw:parsed-from:noends': 52, 'raw:parsed-from:text-file': 54, 'raw:uni-astral': 330,
+                     'raw:uni-casefold-differs-from-lower': 470, 'raw:uni-cjk-compatibility': 360,
+                     'raw:uni-combining-mark': 550, 'raw:uni-hangul-jamo': 360, 'raw:uni-inner-unicode-blank': 360,
+                     'raw:uni-invisible': 390, 'raw:uni-ligature-fullwidth-superscript': 440,
+                     'raw:uni-nfkc-differs': 650, 'raw:uni-not-nfc': 650, 'raw:uni-not-nfd': 640,
+                     'raw:uni-singleton': 460, 'raw:uni-utf8-byte-0x85': 460, 'raw:uni-utf8-byte-0xa0': 440,
+                     'raw:via:data': 310, 'raw:via:text': 370, 'uni:documents': 320,
+                     'uni:first-input:binary-file': 37, 'uni:first-input:bytes-doc': 36,
+                     'uni:first-input:bytes-noends': 44, 'uni:first-input:bytesio': 36,
+                     'uni:first-input:str-doc': 39, 'uni:first-input:text-file': 39}},
     'thorough': {'nontrivial': 2500000,
         'monitors': {'K.codec': 9800000, 'M.codec': 3500000, 'M.codec-str': 2600000, 'M.doc': 360000, 'M.fmt': 67000,
                      'M.fmt-parsed': 59000, 'M.fmt-parsed-value': 1800000, 'M.license': 700000,
@@ -438,7 +570,8 @@ FLOORS = {
                      'M.list-reassigned': 500000, 'M.list-reparsed': 500000, 'M.multi': 7900, 'M.multi-doc': 22000,
                      'M.multi-value': 800000, 'M.nonstrict': 150000, 'M.nonstrict-value': 2900000, 'M.para': 1400000,
                      'M.perm': 230000, 'M.perm-fixpoint': 230000, 'M.perm-para': 1100000, 'M.perm-value': 5100000,
-                     'M.second-round': 67000, 'M.second-round-value': 1000000, 'M.value': 7000000, 'M.watch': 19000000},
+                     'M.second-round': 67000, 'M.second-round-value': 1000000, 'M.value': 7000000,
+                     'M.watch': 19000000},
         'counters': {'codec:enumerated': 16105, 'fact:decoy-files': 15000, 'fact:decoy-header': 32000,
                      'fact:decoy-license': 15000, 'fact:early-reads': 180000, 'fact:files-paragraphs>=2': 190000,
                      'fact:late-after-first-dump': 18000, 'fact:late-assignment': 46000, 'fact:late:comment': 20000,
@@ -487,13 +620,13 @@ FLOORS = {
                      'feat:url-disclaimer-inner-trailing-blank': 9700, 'feat:url-disclaimer-multi-line': 15000,
                      'feat:url-disclaimer-no-trailing-slash': 15000, 'feat:url-disclaimer-other-scheme': 7700,
                      'feat:url-disclaimer-query': 20000, 'feat:url-disclaimer-trailing-slash': 13000,
-                     'feat:url-source-fragment': 21000, 'feat:url-source-http': 19000, 'feat:url-source-https': 53000,
-                     'feat:url-source-inner-lead>=2': 14000, 'feat:url-source-inner-trailing-blank': 13000,
-                     'feat:url-source-multi-line': 19000, 'feat:url-source-no-trailing-slash': 55000,
-                     'feat:url-source-other-scheme': 13000, 'feat:url-source-query': 26000,
-                     'feat:url-source-trailing-slash': 22000, 'feat:url-upstream-contact-fragment': 11000,
-                     'feat:url-upstream-contact-http': 21000, 'feat:url-upstream-contact-https': 7900,
-                     'feat:url-upstream-contact-multi-line': 19000,
+                     'feat:url-source-fragment': 21000, 'feat:url-source-http': 19000,
+                     'feat:url-source-https': 53000, 'feat:url-source-inner-lead>=2': 14000,
+                     'feat:url-source-inner-trailing-blank': 13000, 'feat:url-source-multi-line': 19000,
+                     'feat:url-source-no-trailing-slash': 55000, 'feat:url-source-other-scheme': 13000,
+                     'feat:url-source-query': 26000, 'feat:url-source-trailing-slash': 22000,
+                     'feat:url-upstream-contact-fragment': 11000, 'feat:url-upstream-contact-http': 21000,
+                     'feat:url-upstream-contact-https': 7900, 'feat:url-upstream-contact-multi-line': 19000,
                      'feat:url-upstream-contact-no-trailing-slash': 20000,
                      'feat:url-upstream-contact-other-scheme': 6400, 'feat:url-upstream-contact-query': 25000,
                      'feat:url-upstream-contact-trailing-slash': 12000, 'feat:url-upstream-name-fragment': 6600,
@@ -1765,6 +1898,7 @@ for _g, _atoms in UNI_GROUPS:
         if _atom_ok(_a) and _a not in UNI_ATOMS:
             UNI_ATOMS.append(_a)
 UNI_SPACED = [a for a in UNI_SPACED if _atom_ok(a, spaced=True)]
+RULE = RULE.replace('{ATOMS}', str(len(UNI_ATOMS))).replace('{SPACED}', str(len(UNI_SPACED)))
 UNI_STEMS = ['Caf', 'Jos', 'M', 'x', 'Dr.', 'src/', 'v1.', '2001-', '(c)', 'na', '\xe9', 'GPL-']
 PLAIN_WORDS = ['the', 'Software', 'is', 'provided', 'WITHOUT', 'WARRANTY', 'of', 'any', 'kind,', 'Copyright', '(C)',
                '2001-2014', 'Permission', 'granted,', 'to', 'a', 'copy', 'and', 'GPL-2+', '<a@b.example>', 'x.', '--']
@@ -1800,7 +1934,7 @@ def uni_classes(s):
             cls.add('astral')
         if o in (0x200b, 0x200c, 0x200d, 0x200e, 0x2060, 0xfeff, 0xad, 0x34f, 0x202e, 0x202c, 0xfe0f):
             cls.add('invisible')
-        if ch.isspace():
+        if o > 0x7f and ch.isspace():
             cls.add('inner-unicode-blank')
     b = s.encode('utf-8')
     if b'\x85' in b:
@@ -2215,13 +2349,13 @@ def enum_rawdocs():
             if (i + j) % 3:
                 continue
             n += 1
-            case = gen_rawdoc(random.Random('raw-enum/a/%d/%d' % (i, j)), via=RAWDOC_VIAS[n % 2], form=form, atom=atom)
+            case = gen_rawdoc(random.Random('raw-enum/a/%d/%d' % (i, j)), via=RAWDOC_VIAS[(i // 3 + j) % 2], form=form, atom=atom)
             case['enumerated'] = 'atom'
             yield case
     for i, marker in enumerate(ODD_MARKERS):
         for j, form in enumerate(ALL_INPUTS):
             n += 1
-            case = gen_rawdoc(random.Random('raw-enum/m/%d/%d' % (i, j)), via=RAWDOC_VIAS[n % 2], form=form, marker=marker)
+            case = gen_rawdoc(random.Random('raw-enum/m/%d/%d' % (i, j)), via=RAWDOC_VIAS[(i + j) % 2], form=form, marker=marker)
             case['enumerated'] = 'marker'
             yield case
 
@@ -4496,9 +4630,6 @@ def run_case(ctx, case):
         ctx.mon('M.allforms-value', stats.get('allforms_values', 0))
         ctx.count('uni:documents')
         ctx.count('uni:first-input:%s' % case['input'])
-        for f in feats:
-            if f.startswith('uni-') or f.startswith('marker-'):
-                ctx.count('uni:doc-with-%s' % f)
     perm = stats.get('perm')
     if perm is not None:
         ctx.count('perm:%s' % perm)
